@@ -1,5 +1,5 @@
 (* Proofs about Model/Partition.v (property C11): partition and one-to-one collapse. *)
-From Coq Require Import List Arith ZArith Lia Bool Permutation.
+From Coq Require Import List Arith ZArith Lia Bool Permutation Sorted.
 From BiomV Require Import Base.Tree Base.ListUtil Base.Matrix Model.Table Model.Orient Model.Filter
   Model.Partition Proofs.OrientProofs Proofs.FilterProofs.
 Import ListNotations.
@@ -1167,4 +1167,179 @@ Proof.
       unfold w, o2m_weight. rewrite Z.mul_assoc. rewrite divide_weight by (try apply Hne; assumption). reflexivity.
   - rewrite (zsum_scale (lcm_counts paths) (fun xp : Z * list (Tree * Z) => cell0 o (fst xp) y)). f_equal.
     rewrite <- (map_map fst (fun x => cell0 o x y)). rewrite map_fst_combine by (rewrite Hl; reflexivity). reflexivity.
+Qed.
+
+(* the pathway remembered for a group is one of the pathways yielded with it *)
+Lemma dset_entries d k v k' v' : In (k', v') (dset d k v) -> In (k', v') d \/ (k', v') = (k, v).
+Proof.
+  induction d as [|[k0 v0] r IH]; simpl; [intros [H|[]]; right; symmetry; exact H|].
+  destruct (Z.eqb k k0); simpl.
+  - intros [H|H]; [right; symmetry; exact H|left; right; exact H].
+  - intros [H|H]; [left; left; exact H|]. destruct (IH H) as [H'|H']; [left; right; exact H'|right; exact H'].
+Qed.
+
+Lemma new_md_entries paths : forall d k v,
+  In (k, v) (fold_left (fun d p => fold_left (fun d pg => dset d (snd pg) (fst pg)) p d) paths d) ->
+  In (k, v) d \/ exists p, In p paths /\ In (v, k) p.
+Proof.
+  induction paths as [|p paths IH]; intros d k v H; simpl in H; [left; exact H|].
+  destruct (IH _ k v H) as [H1|[p' [A B]]]; [|right; exists p'; split; [right; exact A|exact B]].
+  assert (In (k, v) d \/ In (v, k) p) as K.
+  { clear -H1. revert d H1. induction p as [|[pw g] p IHp]; intros d H1; simpl in H1; [left; exact H1|].
+    destruct (IHp _ H1) as [H2|H2]; [|right; right; exact H2].
+    destruct (dset_entries _ _ _ _ _ H2) as [H3|H3]; [left; exact H3|]. inversion H3; subst. right. left. reflexivity. }
+  destruct K as [K|K]; [left; exact K|right; exists p; split; [left; reflexivity|exact K]].
+Qed.
+
+Lemma dget_In d k : In k (dkeys d) -> In (k, dget d k) d.
+Proof.
+  unfold dkeys. induction d as [|[k0 v0] r IH]; simpl; intros H; [contradiction|].
+  destruct (Z.eqb k k0) eqn:E.
+  - apply Z.eqb_eq in E. subst. left. reflexivity.
+  - right. apply IH. destruct H as [H|H]; [subst; rewrite Z.eqb_refl in E; discriminate|exact H].
+Qed.
+
+(* ---------------------------------------------------------------- one-to-many, any axis *)
+Lemma collapse_o2m_inv t a paths raises strict key norm incl mode c :
+  collapse_t t a (OneToMany paths raises strict key) norm incl mode = ROk c ->
+  mode_ok mode = true /\ norm = false /\
+  exists c', o2m_rows (orient a t) paths raises strict (Z.eqb mode 1) incl key = ROk c' /\
+             c = mkC (orient a (ctab c')) (cdiv c').
+Proof.
+  unfold collapse_t. fold (mode_ok mode). destruct (mode_ok mode); cbn [negb]; [|discriminate].
+  destruct norm; [discriminate|].
+  destruct (o2m_rows (orient a t) paths raises strict (Z.eqb mode 1) incl key) as [c'|e]; [|discriminate].
+  intros H. inversion H. repeat split. exists c'. split; reflexivity.
+Qed.
+
+Section O2MAxis.
+  Variables (t : table) (a : axis) (paths : list (list (Tree * Z))) (raises : list bool) (strict : bool)
+            (key : Tree) (norm incl : bool) (mode : Z) (c : collapsed).
+  Hypothesis W : wf t.
+  Hypothesis Hc : collapse_t t a (OneToMany paths raises strict key) norm incl mode = ROk c.
+  Let divide := Z.eqb mode 1.
+  Let K := o2m_k divide paths.
+
+  Theorem o2m_ids :
+    StronglySorted Z.lt (ids a (ctab c)) /\
+    (forall g, In g (ids a (ctab c)) <-> exists p pw, In p paths /\ In (pw, g) p) /\
+    ids (other a) (ctab c) = ids (other a) t /\
+    (forall y, md_view (other a) (ctab c) y = md_view (other a) t y) /\
+    ttype (ctab c) = ttype t /\
+    cdiv c = repeat K (length (ids a (ctab c))) /\ (0 < K)%Z /\ mds a t <> None /\ norm = false.
+  Proof.
+    destruct (collapse_o2m_inv _ _ _ _ _ _ _ _ _ _ Hc) as (_ & Hn & c' & H1 & ->). cbn [ctab cdiv].
+    destruct (o2m_rows_inv _ _ _ _ _ _ _ _ H1) as (Hmd & _ & E). cbv zeta in E. subst c'. cbn [ctab cdiv].
+    rewrite ids_orient_back, ids_other_orient_back, ttype_orient. cbn [oids sids ttype].
+    rewrite sids_orient, ttype_orient, omd_orient in *.
+    split; [apply isort_strict, new_md_keys_NoDup|]. split; [apply new_md_groups|]. split; [reflexivity|].
+    split.
+    { intros y. rewrite md_view_orient_back_other. rewrite !md_view_entry. cbn [ids mds sids smd].
+      rewrite sids_orient, smd_orient. destruct (pos y (ids (other a) t)); [apply entry_view_ctor|reflexivity]. }
+    split; [reflexivity|]. split; [reflexivity|]. split; [|split; [exact Hmd|exact Hn]].
+    unfold K, o2m_k. destruct divide; [apply lcm_counts_pos|lia].
+  Qed.
+
+  Theorem o2m_value g y :
+    In g (ids a (ctab c)) -> In y (ids (other a) t) ->
+    cellx a (ctab c) g y =
+    Some (zsum (map (fun xp => mult g (snd xp) * (o2m_weight K divide (snd xp) * cellx0 a t (fst xp) y))%Z
+                    (combine (ids a t) paths))).
+  Proof.
+    destruct (collapse_o2m_inv _ _ _ _ _ _ _ _ _ _ Hc) as (_ & Hn & c' & H1 & ->). cbn [ctab]. intros Hg Hy.
+    assert (Wo : wf (orient a t)) by (apply wf_orient; exact W).
+    rewrite ids_orient_back in Hg. rewrite <- sids_orient in Hy.
+    rewrite cellx_orient by (apply (o2m_rows_wf _ _ _ _ _ _ _ _ Wo H1)).
+    rewrite (o2m_rows_cell _ _ _ _ _ _ _ _ g y Wo H1 Hg Hy). rewrite oids_orient. f_equal. f_equal.
+    apply map_ext. intros xp. unfold cell0. rewrite cell_orient by exact W. reflexivity.
+  Qed.
+
+  (* 'add': a vector contributes its full counts to each group it maps to, once per occurrence *)
+  Theorem o2m_add g y :
+    mode = 0%Z -> In g (ids a (ctab c)) -> In y (ids (other a) t) ->
+    cellx a (ctab c) g y =
+    Some (zsum (map (fun xp => mult g (snd xp) * cellx0 a t (fst xp) y)%Z (combine (ids a t) paths))) /\
+    cdiv c = repeat 1%Z (length (ids a (ctab c))).
+  Proof.
+    intros Hm Hg Hy. split.
+    - rewrite (o2m_value g y Hg Hy). f_equal. f_equal. apply map_ext. intros xp.
+      unfold o2m_weight, divide. rewrite Hm. simpl. destruct (cellx0 a t (fst xp) y); reflexivity.
+    - destruct o2m_ids as (_ & _ & _ & _ & _ & E & _). rewrite E. unfold K, o2m_k, divide. rewrite Hm. reflexivity.
+  Qed.
+
+  (* 'divide': weight * number of groups = the common denominator, so the value is counts / number of groups *)
+  Theorem o2m_divide_weight p :
+    mode = 1%Z -> In p paths -> p <> [] ->
+    (Z.of_nat (length p) * o2m_weight K divide p = K)%Z.
+  Proof.
+    intros Hm Hp Hne. unfold o2m_weight, K, o2m_k, divide. rewrite Hm. simpl. apply divide_weight; assumption.
+  Qed.
+
+  Theorem o2m_divide_conserves y :
+    mode = 1%Z -> length paths = length (ids a t) -> (forall p, In p paths -> p <> []) ->
+    In y (ids (other a) t) ->
+    zsum (map (fun g => cellx0 a (ctab c) g y) (ids a (ctab c))) =
+    (K * zsum (map (fun x => cellx0 a t x y) (ids a t)))%Z.
+  Proof.
+    intros Hm Hl Hne Hy.
+    destruct (collapse_o2m_inv _ _ _ _ _ _ _ _ _ _ Hc) as (_ & Hn & c' & H1 & ->). cbn [ctab].
+    assert (Wo : wf (orient a t)) by (apply wf_orient; exact W).
+    rewrite ids_orient_back. rewrite <- sids_orient in Hy.
+    assert (Hd : Z.eqb mode 1 = true) by (rewrite Hm; reflexivity). rewrite Hd in H1.
+    assert (Hl' : length paths = nobs (orient a t)) by (unfold nobs; rewrite oids_orient; exact Hl).
+    pose proof (o2m_rows_conserves _ _ _ _ _ _ _ y Wo Hl' H1 Hne Hy) as E. rewrite oids_orient in E.
+    unfold K, o2m_k, divide. rewrite Hd.
+    transitivity (zsum (map (fun g => cell0 (ctab c') g y) (oids (ctab c')))).
+    - f_equal. apply map_ext. intros g. unfold cellx0. rewrite cellx_orient by (apply (o2m_rows_wf _ _ _ _ _ _ _ _ Wo H1)). reflexivity.
+    - rewrite E. f_equal. f_equal. apply map_ext. intros x. unfold cell0. rewrite cell_orient by exact W. reflexivity.
+  Qed.
+
+  (* metadata of a group: {key: pathway} for one of the pathways yielded with that group *)
+  Theorem o2m_md g :
+    incl = true -> In g (ids a (ctab c)) ->
+    exists pw p, md_of a (ctab c) g = Some (path_md key pw) /\ In p paths /\ In (pw, g) p.
+  Proof.
+    intros Hi Hg.
+    destruct (collapse_o2m_inv _ _ _ _ _ _ _ _ _ _ Hc) as (_ & Hn & c' & H1 & ->). cbn [ctab] in *.
+    destruct (o2m_rows_inv _ _ _ _ _ _ _ _ H1) as (_ & _ & E). cbv zeta in E. subst c'. cbn [ctab] in *.
+    rewrite ids_orient_back in Hg. cbn [oids] in Hg. rewrite md_of_orient_back.
+    set (nm := new_md_of paths) in *. set (order := isort (map fst nm)) in *.
+    assert (Hk : In g (dkeys nm)) by (apply isort_In; exact Hg).
+    pose proof (dget_In nm g Hk) as Hent.
+    destruct (new_md_entries paths [] g (dget nm g) Hent) as [[]|[p [Hp Hpg]]].
+    exists (dget nm g), p. split; [|split; assumption].
+    rewrite Hi. unfold md_of, md_at. cbn [ids mds oids omd].
+    destruct (pos_In _ _ Hg) as [r Hr]. rewrite Hr. pose proof (pos_Some _ _ _ Hr) as [Hnth Hlt].
+    unfold ctor_md.
+    assert (F : forallb md_falsy (map (fun g0 => path_md key (dget nm g0)) order) = false).
+    { destruct order as [|g0 order']; [simpl in Hlt; lia|]. reflexivity. }
+    rewrite F. rewrite !nth_error_map. rewrite (nth_error_nth' order 0%Z) by exact Hlt. rewrite Hnth. reflexivity.
+  Qed.
+End O2MAxis.
+
+Theorem o2m_refuses t a paths raises strict key norm incl mode e :
+  collapse_t t a (OneToMany paths raises strict key) norm incl mode = RErr e <->
+  (mode_ok mode = false /\ e = E_VALUE) \/
+  (mode_ok mode = true /\ norm = true /\ e = E_OTHER) \/
+  (mode_ok mode = true /\ norm = false /\ mds a t = None /\ e = E_TYPE) \/
+  (mode_ok mode = true /\ norm = false /\ mds a t <> None /\ strict = true /\
+   existsb (fun b => b) raises = true /\ e = E_OTHER).
+Proof.
+  unfold collapse_t. fold (mode_ok mode). destruct (mode_ok mode); cbn [negb].
+  2:{ split; [intros H; inversion H; left; split; reflexivity|].
+      intros [[_ ->]|[(H & _)|[(H & _)|(H & _)]]]; [reflexivity|discriminate|discriminate|discriminate]. }
+  destruct norm.
+  { split; [intros H; inversion H; right; left; repeat split|].
+    intros [[H _]|[(_ & _ & ->)|[(_ & H & _)|(_ & H & _)]]]; [discriminate|reflexivity|discriminate|discriminate]. }
+  unfold o2m_rows. rewrite omd_orient. destruct (mds a t) as [md|].
+  - destruct strict; simpl andb.
+    + destruct (existsb (fun b => b) raises) eqn:R.
+      * split; [intros H; inversion H; right; right; right; repeat split; discriminate|].
+        intros [[H _]|[(_ & H & _)|[(_ & _ & H & _)|(_ & _ & _ & _ & _ & ->)]]]; [discriminate|discriminate|discriminate|reflexivity].
+      * split; [discriminate|].
+        intros [[H _]|[(_ & H & _)|[(_ & _ & H & _)|(_ & _ & _ & _ & H & _)]]]; discriminate.
+    + split; [discriminate|].
+      intros [[H _]|[(_ & H & _)|[(_ & _ & H & _)|(_ & _ & _ & H & _)]]]; discriminate.
+  - split; [intros H; inversion H; right; right; left; repeat split|].
+    intros [[H _]|[(_ & H & _)|[(_ & _ & _ & ->)|(_ & _ & H & _)]]]; [discriminate|discriminate|reflexivity|contradiction].
 Qed.
